@@ -2,6 +2,14 @@
 """Generates MANIFEST.json. Edit BUILT / texts here, run, commit."""
 import json
 BUILT = {
+ "C01": dict(level="exploration", technique="bounded-exhaustive enumeration of hostile token strings x sink x neighbourhood x construct with an HTML5 re-parse oracle (small-scope model checking of a sequential API)",
+   text="Every token string of length <=3 (thorough: 4 in the plain neighbourhood) over a 16-token HTML/mustache-hostile alphabet plus 7 non-string values, in 5 sinks x 6 static neighbourhoods x 12 enclosing constructs; the output is re-parsed with an HTML5 parser and must have the element/attribute-name skeleton of the harmless run, and a canary variable must never be printed. Exhaustive within the bound; the escaping logic decides per character class, so short strings over one token per class reach every branch.",
+   note="Trusts golang.org/x/net/html as the HTML5 parser and the context generator in checks/c01.go. Says nothing about strings longer than the bound or characters outside the alphabet. Falsy non-string values in bound sinks are skipped (attribute legitimately omitted).",
+   ref="DESIGN.md §3 C01"),
+ "C02": dict(level="exploration", technique="bounded-exhaustive enumeration of directive-free templates from a grammar, parser-stable filter, HTML5 round-trip oracle; value x neighbour sweeps for interpolation",
+   text="All forests of <=3 (thorough: <=4) nodes over 23 node labels, full attribute/text sweeps with character references, documents with and without doctype; parse(render(t)) must equal parse(t) up to insignificant whitespace and comments. Every value of a 15-value list x 49 static neighbourhoods in text, interpolated attribute, bound attribute and v-html sinks.",
+   note="Trusts golang.org/x/net/html and its Render for the parser-stability filter. Leading/trailing whitespace of attribute values and of the v-html value is treated as insignificant (the latter is pinned by a unit test). <pre> is outside the vocabulary.",
+   ref="DESIGN.md §3 C02"),
  "C18": dict(level="exploration", technique="bounded-exhaustive enumeration of layer stacks against a reference union model (small-scope model checking of a sequential API)",
    text="Every stack of up to 3 (thorough: 4) layers over a 36-configuration layer table, nil layers in every position, every query of the path universe, compared with a reference model. Exhaustive within the bound; the overlay has no state beyond its layer list, so a small scope covers its logic.",
    note="Trusts testing/fstest.MapFS and the reference model (checks/c18.go). Access below a name that is a file in an upper layer and a directory in a lower one, malformed glob patterns and the listing of an overlay of only nil layers (pinned by a unit test) are unconstrained.",
